@@ -57,6 +57,9 @@ def base_programs():
     # identifiers inside tuple literals are condition fields like any other (not splitters)
     yield "tuple-ident", ("prog", "exp", "s", ("uid",), ("if", ("cmp", ("id", "country"), "in", ("tup", (("id", "home"), ("lit", "US")))), ("ret", MULTI), ("else", ("ret", (("Z", "1"), ("Y", "1"))))))
     yield "tuple-ident2", ("prog", "exp", None, ("uid", "f"), ("if", ("cmp", ("tup", (("id", "f"), ("id", "g"))), "==", ("tup", (("lit", 1), ("id", "h")))), ("ret", MULTI), ("elif", ("cmp", ("id", "g"), "not in", ("tup", (("tup", (("id", "h"), ("lit", 2))), ("lit", 3)))), ("ret", MULTI), None)))
+    # a splitter whose NAME is part of a condition field's name (and is a builtin's name)
+    yield "substr", ("prog", "exp", "s", ("id", "user"), ("if", ("cmp", ("id", "paid"), "==", ("lit", 1)), ("ret", MULTI), ("elif", ("cmp", ("id", "user_tier"), "in", ("tup", (("lit", 1), ("lit", 0)))), ("ret", MULTI), None)))
+    yield "substr2", ("prog", "exp", None, ("a", "len"), ("if", ("cmp", ("id", "aa"), "==", ("lit", 1)), ("ret", MULTI), ("else", ("if", ("cmp", ("id", "length"), "!=", ("lit", 5)), ("ret", MULTI), None))))
     for P in (1, 2, 3):
         for j, sk in enumerate(esh._C(P)):
             yield f"shape{P}.{j}", ("prog", "exp", "k", ("uid",), multi(esh._number(sk, {"p": 0, "r": 0})))
@@ -228,7 +231,8 @@ def check_base(acc, tag, ast, tier):
         acc.samples.append({"text": short(text, 200), "ids": len(IDS), "transformations": ["extra-kwarg", "rename", "decl-order", "kwarg-order", "cond-values", "omitted", "salt"]})
 
 
-TWIN_SALTS = [("p\x0cq", "p\x0c q"), ("p\rq", "p\r q"), ("p\u2028q", "p\x85q"), ("http://a/x", "http://a/y"), ("x//a", "x//b"), ("S", "s"), ("s ", "s"), ("é", "e\u0301"), ("a  b", "a b"), ("pricing'", "pricing"), ("'p'", "p"), ('"p"', "p"), ("'", ""), ("home page", "homepage")] + \
+TWIN_SALTS = [("p\x0cq", "p\x0c q"), ("p\rq", "p\r q"), ("p\u2028q", "p\x85q"), ("http://a/x", "http://a/y"), ("x//a", "x//b"), ("S", "s"), ("s ", "s"), ("é", "e\u0301"), ("a  b", "a b"), ("pricing'", "pricing"), ("'p'", "p"), ('"p"', "p"), ("'", ""), ("home page", "homepage"),
+              ("L" * 64 + "a", "L" * 64 + "b"), ("L" * 63 + "a", "L" * 63 + "b"), ("M" * 100 + "x", "M" * 100 + "y"), ("N" * 255 + "1", "N" * 255 + "2"), ("P" * 32 + "a", "P" * 32 + "b")] + \
     [(a, b) for a, b in _collide.near_twin_pairs() if "\n" not in a + b and "\x00" not in a + b]
 
 
